@@ -12,10 +12,12 @@ pub mod c04;
 pub mod c05;
 pub mod c06;
 pub mod rolling;
+pub mod subrun;
 pub mod c07;
 pub mod c08;
 pub mod frames;
 pub mod hooks;
+pub mod miri;
 pub mod c09;
 pub mod c10;
 pub mod c11;
@@ -95,10 +97,43 @@ pub fn child(args: &[String]) -> i32 {
     }
     match args[0].as_str() {
         "c02" => c02::child_main(&args[1..]),
+        "subrun" => subrun::child_main(&args[1..]),
         "c15e2e" => c15::child_e2e(&args[1..]),
         "c18" => c18::child_main(&args[1..]),
         "c16" => c16::child_main(&args[1..]),
         "c08crash" => c08::child_crash(&args[1..]),
         _ => 2,
     }
+}
+
+/// Small concurrent scenarios that run under Miri (`l4v miri <Cxx> <seed>`): the same
+/// monitors, a tiny workload, one schedule per Miri seed. Prints `RESULT {...}`.
+pub fn miri_main(args: &[String]) -> i32 {
+    if args.len() < 2 {
+        return 2;
+    }
+    let prop = args[0].clone();
+    let seed: u64 = args[1].parse().unwrap_or(0);
+    trap::install();
+    hooks::install();
+    let mut rep = Report::new(&prop, "thorough", seed, "exploration");
+    let mut rng = rng::Rng::new(seed);
+    match prop.as_str() {
+        "C04" => c04::miri_scenario(&mut rep, &mut rng),
+        "C05" => c05::miri_scenario(&mut rep, &mut rng),
+        "C15" => c15::miri_scenario(&mut rep, &mut rng),
+        "C17" => c17::miri_scenario(&mut rep, &mut rng),
+        _ => return 2,
+    }
+    let viol: Vec<serde_json::Value> = rep
+        .violations
+        .iter()
+        .map(|v| serde_json::json!({"signature": v.signature, "detail": v.detail}))
+        .collect();
+    println!(
+        "RESULT {}",
+        serde_json::json!({"seed": seed, "counters": rep.counters, "violations": viol, "inconclusive": rep.inconclusive,
+            "sets": rep.sets.iter().map(|(k, v)| (k.clone(), v.iter().cloned().collect::<Vec<u64>>())).collect::<std::collections::BTreeMap<_, _>>()})
+    );
+    0
 }
